@@ -60,7 +60,7 @@ class CmdMixin(object):
             # after the known cross-app id failure (F8) the history goes on: what the failed command left
             # behind for *other* clients is still judged; any other internal failure cuts the history
             if not (self.known and self.known[-1]["id"] == "F8" and self.known[-1]["step"] == st.i):
-                self.halted = True
+                self._after_internal_failure(st, cm, msg, cls)
             else:
                 for mm in self.mb.values():
                     if mm.mid == msg.get("mailbox"):
@@ -106,6 +106,43 @@ class CmdMixin(object):
                               {"table": t, "row": new, "conn_app": cm.app})
         self._footprint(world, st, ctx)
         self._message_frames_explained(world, st, ctx)
+
+    def _after_internal_failure(self, st, cm, msg, cls):
+        """The handler failed (already reported).  The history goes on: the model follows what the statements promise
+        for the command - a release ends the side's claim, a close closes the side - so that what the failure leaves
+        behind for later commands and other clients is still judged; where the statements leave the outcome open
+        the objects named are tainted."""
+        t = msg.get("type") if isinstance(msg, dict) else None
+        if not cm.bound or cls != VALID:
+            return
+        if t == "release":
+            name = msg.get("nameplate", cm.claim_name)
+            key = (cm.app, name)
+            n = self.np.get(key)
+            if n is not None and not n.unknown_origin:
+                n.released.add(cm.side)
+                if not n.holders():
+                    self.retired_np[key] = n.mid
+                    self.np.pop(key, None)
+        elif t == "close":
+            mid = msg.get("mailbox", cm.opened_id)
+            key = (cm.app, mid)
+            m = self.mb.get(key)
+            if m is not None and not m.unknown_origin:
+                m.closed.add(cm.side)
+                m.open_low.discard(cm.side)
+                m.open_high.discard(cm.side)
+                if not m.open_high and not (m.taint - SOFT):
+                    self.mb.pop(key, None)
+                    self.msgs.pop(key, None)
+                    for other in self.cm.values():
+                        if other.sub is m:
+                            other.sub = None
+                            other.stale = True
+        else:
+            for key, obj in list(self.np.items()) + list(self.mb.items()):
+                if key[0] == cm.app and key[1] in (msg.get("nameplate"), msg.get("mailbox"), cm.holds, cm.claim_name):
+                    obj.taint.add("ambiguous")
 
     # ------------------------------------------------------------------
     def _footprint(self, world, st, ctx):
